@@ -3,4 +3,5 @@ pub mod codec;
 pub mod crash;
 pub mod exec;
 pub mod r#gen;
+pub mod sched;
 pub mod util;
